@@ -294,6 +294,23 @@ func (w *World) CheckLifecycle(out *Outcome, o *Obs) []Violation {
 	for _, h := range sdl.SortedKeys(edges) {
 		back[h] = append(back[h], edges[h]...)
 	}
+	// an any-typed point that was given the App component: the App needs every runner and closer
+	for _, h := range sdl.SortedKeys(o.Points) {
+		if !created[h] {
+			continue
+		}
+		for _, f := range sdl.SortedKeys(o.Points[h]) {
+			for _, x := range o.Points[h][f] {
+				if strings.HasPrefix(x, "?") && strings.Contains(x, "app.App") {
+					for _, i := range w.P.Instances {
+						if w.Types[i.Type].Role != "" {
+							back[h] = append(back[h], i.ID)
+						}
+					}
+				}
+			}
+		}
+	}
 	for _, h := range sdl.SortedKeys(o.Points) {
 		if !created[h] {
 			continue
